@@ -76,10 +76,15 @@ def applyRequested (p : CertParams) (seen : List (List Nat)) : List (Ext × Byte
       else applyRequested { p with keyUsages := kus } (e.oid :: seen) rest
     | .san names =>
       match importSans names with
-      | .ok s => applyRequested { p with sans := p.sans ++ s } (e.oid :: seen) rest
+      | .ok s =>
+        -- no name at all, or names that would not be written back as requested, cannot be issued
+        if s.isEmpty || encode (.seq (s.map sanNode)) != raw then .error .unsupportedExtension
+        else applyRequested { p with sans := p.sans ++ s } (e.oid :: seen) rest
       | .error x => .error x
     | .eku oids =>
-      if oids.all (fun o => stdEkus.any (fun e => e.oid == o)) then
+      -- purposes without an `ExtendedKeyUsagePurpose`, or none at all, cannot be issued
+      if oids.all (fun o => stdEkus.any (fun e => e.oid == o)) &&
+          !(insertStdEkus p.ekus oids).isEmpty then
         applyRequested { p with ekus := insertStdEkus p.ekus oids } (e.oid :: seen) rest
       else .error .unsupportedExtension
     | _ => .error .unsupportedExtension
